@@ -123,7 +123,7 @@ def sortCanonical (fields : List Bytes) (kinds : List SortKind) (xs : List Rec) 
   -- groups by exact key texts (comma-joined), first-appearance order
   let groups : OMap (List Bytes × List Rec) := keyed.foldl (fun m r =>
       let vs := (keyVals fields r).getD []
-      let k := Split.join [44] vs
+      let k := joinKey vs
       match m.get? k with
       | some g => m.put k (g.1, g.2 ++ [r])
       | none => m.put k (vs, [r])) []
@@ -139,7 +139,7 @@ def isPermOf (xs ys : List Rec) : Bool := xs.length == ys.length && xs.all fun r
 def runs (fields : List Bytes) : List Rec → List (Bytes × List Rec)
   | [] => []
   | r :: rest =>
-    let k := Split.join [44] ((keyVals fields r).getD [])
+    let k := joinKey ((keyVals fields r).getD [])
     match runs fields rest with
     | (k', g) :: more => if k == k' then (k, r :: g) :: more else (k, [r]) :: (k', g) :: more
     | [] => [(k, [r])]
@@ -159,7 +159,7 @@ def sortRel (fields : List Bytes) (kinds : List SortKind) (input out : List Rec)
   outSpill == spillIn &&
   outKeyed.all (fun r => (keyVals fields r).isSome) &&
   -- each key text occurs in exactly one run, whose records are the input's with that key, in input order
-  rs.all (fun run => run.2 == keyedIn.filter (fun r => Split.join [44] ((keyVals fields r).getD []) == run.1)) &&
+  rs.all (fun run => run.2 == keyedIn.filter (fun r => joinKey ((keyVals fields r).getD []) == run.1)) &&
   ((rs.map (·.1)).eraseDups.length == rs.length) &&
   -- heads non-decreasing
   (rs.zip (rs.drop 1)).all (fun p =>
